@@ -2,6 +2,17 @@
 TRUST = ("Trusted: generator G emits only standard-conforming programs (C01 owns that); the canonical tree form; "
          "Hypothesis' PRNG. Exploration only: absence of violations on the generated cases, not a proof.")
 CHECKS = {
+ "C02": ("property-based token-level differential (independent lossless lexer vs construction-time token sequence)",
+         "Generated programs with source variants and free-form layouts; the regenerated text is lexed by an "
+         "independent lexer and compared statement by statement with the token sequence known by construction.",
+         TRUST, "DESIGN.md 5 C02"),
+ "C03": ("bounded-exhaustive + random differential against a reference precedence grammar (R701-R723)",
+         "Every operator tree up to 2 (quick) / 3 (thorough) operators over all intrinsic/defined operators plus random "
+         "trees to depth 6, rendered with minimal parentheses; fparser's grouping must equal the reference grouping.",
+         TRUST, "DESIGN.md 5 C03"),
+ "C04": ("metamorphic property-based testing (layout engine; tree of laid-out source == tree of canonical source)",
+         "Generated programs under random free-form layouts plus exhaustive break subsets for small statements; "
+         "canonical tree forms must agree up to name case.", TRUST, "DESIGN.md 5 C04"),
  "C01": ("property-based round-trip (Hypothesis-driven program generator; parse/print/parse fixpoint oracle)",
          "Random programs from a structured Fortran generator are parsed, printed, re-parsed and re-printed; "
          "trees and texts must agree. Exploration is the right level: the domain is an infinite grammar.",
@@ -9,6 +20,6 @@ CHECKS = {
 }
 NOT_APPLICABLE = {
  pid: "check not built yet (work in progress; see DESIGN.md 5)" for pid in
- ["C02", "C03", "C04", "C05", "C06", "C07", "C08", "C09", "C10", "C11", "C12", "C13", "C14", "C15", "C16", "C17",
+ ["C05", "C06", "C07", "C08", "C09", "C10", "C11", "C12", "C13", "C14", "C15", "C16", "C17",
   "C18", "C19", "C20"]
 }
